@@ -298,6 +298,34 @@ def oracle_root(ctx, case, jcase, rng):
                         return
 
 
+def oracle_caret(ctx):
+    """`^^name` is the escape for a field whose name starts with a caret: it is looked up in the *current* (sub-)document,
+    whatever the outermost document holds — through every kind of child validator, depth 1..2"""
+    import itertools
+    from cerberus import Validator
+    kinds = ['schema', 'list', 'items', 'values', 'anyof']
+    for depth in (1, 2):
+        for seq in itertools.product(kinds, repeat=depth):
+            for here, at_root in ((True, False), (False, True), (True, True), (False, False)):
+                schema, doc = {'x': {'dependencies': '^^t'}, '^t': {}}, {'x': 1}
+                if here:
+                    doc['^t'] = 1
+                for k in seq:
+                    schema, doc = wrap(k, schema, doc)
+                schema['^t'] = {}
+                if at_root:
+                    doc['^t'] = 1
+                try:
+                    ok = Validator(copy.deepcopy(schema)).validate(copy.deepcopy(doc))
+                except Exception as e:
+                    ok = 'raised %s' % type(e).__name__
+                ctx.dist('root_checks', 'caret escape')
+                if ok != here:
+                    ctx.fail('C10 oracle: the dependency `^^t` below %s (field `^t` in the sub-document: %s, at the root: %s) '
+                             'gave %s' % ('/'.join(seq), here, at_root, ok), {'schema': repr(schema), 'doc': repr(doc)})
+                    return
+
+
 def run(ctx, n):
     ctx.cov['rule'] = ('generated accepted schemas with containers nested up to depth 4 x all option combinations at the root and '
                        'per-field overrides x documents x update; oracle: child errors beneath every top-level container field vs a '
@@ -307,6 +335,7 @@ def run(ctx, n):
     import random
     with Driver() as drv:
         oracle_root(ctx, None, None, None)
+        oracle_caret(ctx)
         for i, prof, case, g in cases.stream(ctx.seed, n, profiles):
             if cases.accepted(case) is not True:
                 continue
